@@ -18,10 +18,15 @@ CHECKS = {
     'C03': ('worldsim', '5.3', 'executed multiset over all pids vs. reference selection model, for --list-tests / sequential / simulated -j N / resumed executions of one spec (exactly-once across processes)'),
     'C06': ('procsim', '5.6', 'seeded and directed (all k! forced completion orders, barrier, stalls) schedules of the real resume_tests/spawn threads over tape-replaying child actors; block/ordering oracle, alive<=N invariant at every spawn, bounded-progress by structural hang detection'),
     'C07': ('procsim', '5.7', 'channel fault injection on the simulated child processes (crash at every hook site, truncation at every report offset, noise, back-pressure, EINTR, spawn failure); delivered-report oracle, deadlock detection by the scheduler'),
+    'C10': ('ordersim', '5.10', 'the nondeterminism sources the statement names (discovery order, layer-object creation order/addresses, --layer option order, PYTHONHASHSEED lanes) are permuted by the simulator around the real Runner(found_suites=...); order invariants on the simulated runs'),
     'C11': ('worldsim', '5.11', 'simulated clocks with parent/child skew decide the default seed; order equality across list/sequential/-j N/resumed/--layer executions and reproduction from the reported seed'),
     'C12': ('worldsim', '5.12', 'printed counts/lists vs. trace ground truth, and sequential vs. simulated -j N / resumed executions of the same spec'),
     'C13': ('worldsim', '5.13', 'token attribution over the merged stdout/stderr log and stream identity monitored inside hooks, over seeded outcome histories'),
+    'C14': ('fssim', '5.14', 'find.os seam returns every directory in seeded enumeration orders over generated tmpfs trees; import-event history and listing order vs. reference discovery model'),
+    'C15': ('fssim', '5.15', 'find.os seam (enumeration order, unlink faults: concurrent removal / permission) around the real --list-tests run on generated tmpfs trees; before/after disk snapshot vs. orphan model'),
     'C16': ('worldsim', '5.16', '"nothing starts after the first bad outcome" automaton per pid over seeded simulated -x runs'),
+    'C18': ('statesim', '5.18', 'interpreter-state snapshots around in-process runs whose test phase is ended by injected faults (exceptions escaping layer per-test hooks, KeyboardInterrupt, -x, -D/EndRun) under every subset of state-changing options'),
+    'C19': ('threadsim', '5.19', 'real leaked threads with simulator-allocated (recycled) thread idents behind threadsupport seams and seeded release points; leak-report oracle against the world\'s own thread table'),
 }
 
 NA = [
@@ -52,6 +57,14 @@ def main():
         'engines': [
             {'name': 'worldsim', 'path': 'vsim/', 'serves_properties': sorted(p for p, v in CHECKS.items() if v[0] == 'worldsim'),
              'kind_free_text': 'deterministic simulation: real runner under a seeded baton scheduler over real threads, simulated pipes/processes/clock, generated worlds driven by a fault plan'},
+            {'name': 'fssim', 'path': 'vsim/fssim.py', 'serves_properties': ['C14', 'C15'],
+             'kind_free_text': 'generated tmpfs trees behind a find.os seam owning enumeration order and unlink faults; disk snapshots'},
+            {'name': 'ordersim', 'path': 'vsim/props/c10.py', 'serves_properties': ['C10'],
+             'kind_free_text': 'permutes discovery/creation/option order and hash-seed lanes around Runner(found_suites=...)'},
+            {'name': 'statesim', 'path': 'vsim/props/c18.py', 'serves_properties': ['C18'],
+             'kind_free_text': 'interpreter-state snapshots around fault-aborted in-process runs'},
+            {'name': 'threadsim', 'path': 'vsim/threadsim.py', 'serves_properties': ['C19'],
+             'kind_free_text': 'real threads, simulated thread-ident allocation and seeded release points behind threadsupport seams'},
             {'name': 'procsim', 'path': 'vsim/', 'serves_properties': sorted(p for p, v in CHECKS.items() if v[0] == 'procsim'),
              'kind_free_text': 'worldsim whose option vector creates children: scheduler decides every interleaving of parent threads and child actors, channel faults applied to the child tapes'},
         ],
